@@ -803,6 +803,7 @@ static inline void * myth_create_join_various_ex_aux(void * meta_arg_) {
       ((myth_thread_t *)ids)[0] = myth_self();
     }
     myth_func_t func = ((myth_func_t *)funcs)[0]; /* call f(x) */
+    MYTH_VERIF_POINT(MYTH_VP_BULK_LEAF, funcs, args, a);
     void * y = func(args);
     if (results) {
       ((void **)results)[0] = y;
@@ -824,12 +825,15 @@ static inline void * myth_create_join_various_ex_aux(void * meta_arg_) {
     };
     myth_thread_attr_t * attr_a = (myth_thread_attr_t *)(attrs ? (char *)attrs + a * attr_stride : 0);
     myth_thread_t cid = 0;
+    MYTH_VERIF_POINT(MYTH_VP_BULK_SPLIT, a, b, c);
+    MYTH_VERIF_POINT(MYTH_VP_BULK_ATTR, attr_a, attrs, a);
     int r0 = myth_create_ex_body(&cid, attr_a, myth_create_join_various_ex_aux, carg);
     assert(r0 == 0); /* TODO : better communicate error */
     void * r1 = myth_create_join_various_ex_aux(carg + 1);
     assert(r1 == 0); /* TODO : better communicate error */
     int r2 = myth_join_body(cid, 0);
     assert(r2 == 0); /* TODO : better communicate error */
+    MYTH_VERIF_POINT(MYTH_VP_BULK_JOINED, a, b, c);
   }
   return 0;
 }
